@@ -180,3 +180,46 @@ func pad3(n int) string {
 	}
 	return s
 }
+
+// VerifC07eQueued: k records are queued on one connection, each shorter or
+// longer than the transport read (P bytes, one reused buffer as io.Copy has);
+// the client prints exactly the k records, each whole, in order.
+func VerifC07eQueued(k, P int) {
+	lg := dlog.VerifInstall(source.Client)
+	sh := shandlers.VerifNewServerHandler(false, true, false, 2, 2)
+	var want []string
+	for i := 0; i < k; i++ {
+		n := []int{1, P - 10, P + 3, 2*P + 1}[verifrt.Choose("len", 4)]
+		if n < 1 {
+			n = 1
+		}
+		content := ""
+		for j := 0; j < n-1; j++ {
+			content += string(rune('a' + i))
+		}
+		content += "\n"
+		buf := &bytes.Buffer{}
+		buf.WriteString(content)
+		sh.VerifLines() <- &line.Line{Content: buf, Count: uint64(i + 1), TransmittedPerc: 100, SourceID: "f"}
+		want = append(want, "REMOTE|host|100|"+utoa(uint64(i+1))+"|f|"+content)
+	}
+	p := make([]byte, P)
+	h := chandlers.NewClientHandler("srv")
+	for len(sh.VerifLines()) > 0 || sh.VerifPending() > 0 {
+		n, err := sh.Read(p)
+		verifrt.Assert(err == nil, "Read failed")
+		verifrt.Assert(n <= P, "Read reports more bytes than the buffer holds")
+		h.Write(p[:n])
+	}
+	var printed []string
+	for _, c := range lg.Calls {
+		if c != "" { // (the delimiter after a newline-terminated record yields an empty message)
+			printed = append(printed, c)
+		}
+	}
+	verifrt.Assert(len(printed) == k, "the number of printed records differs from the number of lines sent")
+	for i := 0; i < k && i < len(printed); i++ {
+		verifrt.Assert(printed[i] == want[i], "a record is truncated, glued to its neighbour or attributed wrongly")
+	}
+	verifrt.Reach("queued-records")
+}
